@@ -74,11 +74,24 @@ def main():
     max_cpg = 0
     max_n = 0
     n_second = 0
+    n_timeout = 0
+    n_views = 0
+    view_variants = {}
+    n_on_table = 0
     n_skipped = 0
     pos_table = {}
     for i, (l, r, raw) in enumerate(results):
-        if r is None and is_special(l) and kernel_rejects(l):
-            n_skipped += 1          # the kernel itself panics on this draw (single-cell runs crash alone)
+        if r is None and raw == 'TIMEOUT':
+            n_timeout += 1
+            continue
+        side = kernel_rejects(l) if (r is None and is_special(l)) else None
+        if side == 'both':
+            n_skipped += 1          # the kernel itself panics on this draw, vectorised and alone
+            continue
+        if side in ('single', 'vector'):
+            c.count(l, nontrivial=True)
+            c.violation('run_panic_%s_%d.json' % (side, i), {'kind': 'vectorised run and single-cell runs differ: only the %s run(s) panic' % ('single-cell' if side == 'single' else 'vectorised'),
+                                                            'case_line': l, 'impl': raw, 'replay': 'echo "%s" | harness/bin/cellrun   (probes: last argument 1 = single-cell runs only, 2 = vectorised only)' % l})
             continue
         if r is None:
             c.count(l, nontrivial=False)
@@ -95,6 +108,10 @@ def main():
         n_c += L['Backend'] == 'c'
         max_n = max(max_n, L['N'])
         n_second += r.get('second_runs', 0)
+        if r.get('view_runs'):
+            n_views += 1
+            view_variants[str(r.get('view_variant'))] = view_variants.get(str(r.get('view_variant')), 0) + 1
+        n_on_table += r.get('on_table_point_values', 0)
         add_positions(pos_table, r)
         max_cpg = max(max_cpg, r.get('max_cells_per_goroutine', 0))
         if not r['ok']:
@@ -117,6 +134,16 @@ def main():
                                                      'replay': 'echo "%s" | harness/bin/cellrun   (field "cells"); model: echo "%s" | ocaml/driver' % (l, fp_lines[fp_idx.index(i)][:300])})
         if i % 131 == 0:
             c.sample({'case': l, 'changed_elements': r.get('changed'), 'recorded_accesses': r.get('n_accesses')})
+
+    # ---------------- InitialiseStates on a long-lived model object (every call: a NEW array equal to a fresh object's)
+    seq_lines = ['INITSEQ %s %d %d %d %d' % (m, [2, 3, 5][k % 3], [1, 2][k % 2], 6, rng.randrange(1 << 30))
+                 for k, m in enumerate(models) for _ in range(1 if quick else 6)]
+    for (l, r, raw) in run_cases(seq_lines):
+        c.count(l, nontrivial=True)
+        if r is None or not r['ok']:
+            c.violation('initseq_%s.json' % l.split()[1], {'kind': 'InitialiseStates on a long-lived model object is not a fresh, unshared array',
+                                                           'case_line': l, 'fails': r['fails'] if r else raw,
+                                                           'replay': 'echo "%s" | harness/bin/cellrun' % l})
 
     # ---------------- InitialiseStates
     il = init_lines(rng, models, 2 if quick else 20, n_het=6 if quick else 60)
@@ -146,12 +173,13 @@ def main():
             c.violation('init_%s.json' % r['model'], {'kind': 'initialise-states-row-differs', 'fails': r['fails'], 'case_line': l,
                                                       'replay': 'echo "%s" | harness/bin/cellrun' % l})
     c.cov['rule'] = ('every model of sim.Catalog x (N,nSets,nIn) in %d shapes (nSets/nIn equal to, dividing, coprime with N) x T in {0,1,7,40} '
-                     '(plus a many-cells stream N in %s on %d cheap models, footprints recorded up to N=%d) plus parameter-position streams (every scalar parameter at exactly its range ends, exactly 0, its default, inside; a low-frequency out-of-range stream x100 / negated with nSets, nIn in {1,N}; mostly shared parameter sets / input blocks) x exact / padded outputs (canaries) x padded state columns x Go-/C-backed arrays; per case: vectorised run vs N '
+                     '(plus a many-cells stream N in %s on %d cheap models, footprints recorded up to N=%d) every case (N <= 300) re-run with inputs / states / outputs / parameters handed over as VIEWS of larger sentinel-filled tables (two adjacent offset blocks run one after the other, strided rows with a spare column, time window, stepped time axis, parameter sub-matrix; Go- and C-backed): same results, parents untouched outside the views; plus parameter-position streams (tables with a repeated breakpoint and inputs / states exactly on table points for the dimensioned models; every scalar parameter at exactly its range ends, exactly 0, its default, inside; a low-frequency out-of-range stream x100 / negated with nSets, nIn in {1,N}; mostly shared parameter sets / input blocks) x exact / padded outputs (canaries) x padded state columns x Go-/C-backed arrays; per case: vectorised run vs N '
                      'single-cell runs (two parameter packings) bit-for-bit, inputs/parameters bit-identical AND array descriptors (Shape, NDims, Len per axis of inputs, parameters, states, outputs) identical after every vectorised, single-cell and recorded Run; in every third case (and all many-cells cases) Run is called again on the same input/parameter objects (and with a second model instance) and must reproduce the first call bit for bit; recorded per-goroutine access '
                      'sets vs extracted Coq footprint; non-trivial = more than one cell; plus InitialiseStates(n) vs single-cell '
                      'InitialiseStates(1) (homogeneous: must agree; heterogeneous GR4J/Lag: known finding)' % (len(SHAPES), MANY_N if quick else MANY_N + [511, 1000], len(MANY_MODELS), 129 if quick else 257))
     c.finish(extra_cov={'models': len(models), 'case_classes_hit': len(classes), 'recorded_footprint_cases': n_rec,
-                        'c_backed_cases': n_c, 'many_cells_cases': len(many), 'parameter_position_cases': len(special), 'skipped_kernel_rejects_draw': n_skipped,
+                        'c_backed_cases': n_c, 'many_cells_cases': len(many), 'cases_also_run_on_views_of_larger_tables': n_views, 'view_variants': view_variants,
+                        'values_placed_exactly_on_table_points': n_on_table, 'long_lived_model_initseq_cases': len(seq_lines), 'parameter_position_cases': len(special), 'skipped_kernel_rejects_draw': n_skipped, 'skipped_out_of_range_case_over_deadline': n_timeout,
                         'parameter_positions_drawn': positions_summary(pos_table), 'cases_with_repeated_run_on_same_objects': n_second, 'largest_cell_count': max_n,
                         'max_cells_handled_by_one_goroutine': max_cpg, 'heterogeneous_init_failures': n_het_fail, 'exhaustive': False, 'coqchk': chk},
              assumptions=['array library addresses the row-major offsets its arguments denote (C01/C02; the recorder measures element addresses through the public API and validates every logged value)',
